@@ -15,6 +15,7 @@ def check(rep, tier, replay=None):
     tables.run(rep, "W.util", tables.utility_witnesses(10), "monomial_derivative(s), monomial_integral, lagrange_basis, lgr_nodes", 80, second)
     rep.unit("2 batched static_assert TUs over polynomial/basis.hpp, polynomial/quadrature.hpp")
     check_i1(rep)
+    check_i3(rep)
     check_i2(rep, 8 if tier == "thorough" else 7)
 
 
@@ -212,6 +213,10 @@ def check_i1(rep):
                 return {"<": v < thr, ">": v > thr, "<=": v <= thr, ">=": v >= thr}[e[1]]
             if e[0] == "op" and e[1] in (">", ">=") and e[2][0] == "ref" and e[2][1] in locals_ and e[3] == ("num", 0):
                 return kind == "quad2"      # discriminant-like quantity positive exactly when there are two distinct real roots
+            try:
+                return bool(xev(e, dict(nums), {}))       # comparisons of the coefficients themselves (A == 0, B != 0, ...)
+            except Bad:
+                pass
             raise Bad("condition `%s`" % t[:60])
 
         result = {}
@@ -303,6 +308,120 @@ def check_i1(rep):
                                       "quad2": "a quadratic with two real roots"}[kind], list(cls),
                                      " + ".join("%s*F(%s)" % (c, p) for p, c in sorted(got.items())),
                                      " + ".join("%s*F(%s)" % (c, p) for p, c in sorted(want.items()))), fn.file, fn.line))
+
+
+# ---- I3: dimensional consistency of the degeneracy tests of integrate_absolute_polynomial -------------------------------------
+
+def check_i3(rep):
+    """The integrand A t^2 + B t + C has a value unit V and a time unit T: A ~ V T^-2, B ~ V T^-1, C ~ V, t0, t1 ~ T.  The integral is
+    homogeneous in both (scale the coefficients, or rescale time, and it scales accordingly), so every comparison that selects a case must
+    compare quantities of equal dimension (or compare with 0).  A coefficient compared with a bare number is an absolute threshold: for
+    small coefficients on long intervals (or large ones on short intervals) the wrong case is selected."""
+    import astlib as A
+    import fe
+    from report import Finding
+    rep.rule("I3", "integrate_absolute_polynomial: every case-selecting comparison is dimensionally consistent (no absolute thresholds on A, B, C)", minimum=2)
+    idx = A.index(fe.ast_dump("integrate_absolute_polynomial"))
+    fns = [d for d in idx if d.kind in A.FUNCS and d.pattern and d.qname.split("::")[-1] == "integrate_absolute_polynomial" and A.body(d.node) is not None]
+    if len(fns) != 1:
+        rep.broke("I3: integrate_absolute_polynomial not found")
+        return
+    fn = fns[0]
+    ps = [p_.get("name") for p_ in A.params(fn.node)]
+    if len(ps) != 5:
+        rep.broke("I3: integrate_absolute_polynomial has %d parameters" % len(ps))
+        return
+    t0, t1, pa, pb, pc = ps
+    base = {t0: (0, 1), t1: (0, 1), pa: (1, -2), pb: (1, -1), pc: (1, 0)}      # (V exponent, T exponent)
+    locs = {}
+    for x in A.walk(A.body(fn.node)):
+        if x.get("kind") == "VarDecl" and A.kids(x) and x.get("name"):
+            locs[x.get("name")] = A.to_expr(A.kids(x)[-1])
+
+    class DErr(Exception):
+        pass
+
+    def dim(e, depth=0):
+        """dimension, or 'num' for a bare number, 'zero' for the literal 0 (compatible with everything)"""
+        t = e[0]
+        if t == "num":
+            return "zero" if e[1] == 0 else "num"
+        if t == "ref":
+            if e[1] in base:
+                return base[e[1]]
+            if e[1] in locs and depth < 10:
+                return dim(locs[e[1]], depth + 1)
+            raise DErr("name %s" % e[1])
+        if t == "neg":
+            return dim(e[1], depth)
+        if t == "ctor" and len(e[2]) == 1:
+            return dim(e[2][0], depth)
+        if t == "call":
+            nm = str(e[1]).split("::")[-1].split("<")[0]
+            if nm in ("abs", "fabs") and len(e[2]) == 1:
+                return dim(e[2][0], depth)
+            if nm == "sqrt" and len(e[2]) == 1:
+                d_ = dim(e[2][0], depth)
+                return d_ if d_ in ("num", "zero") else (d_[0] / 2, d_[1] / 2)
+            if nm in ("min", "max", "clamp"):
+                ds = [dim(a, depth) for a in e[2]]
+                real = [d_ for d_ in ds if d_ not in ("zero",)]
+                return real[0] if real else "zero"
+            if "infinity" in str(e[1]) or "numeric_limits" in str(e[1]):
+                return "zero"
+            raise DErr("call %s" % nm)
+        if t == "op":
+            a, b = dim(e[2], depth), dim(e[3], depth)
+            if e[1] in ("+", "-"):
+                real = [d_ for d_ in (a, b) if d_ != "zero"]
+                return real[0] if real else "zero"
+            if e[1] in ("*", "/"):
+                da = (0, 0) if a in ("num", "zero") else a
+                db = (0, 0) if b in ("num", "zero") else b
+                if a in ("num", "zero") and b in ("num", "zero"):
+                    return "num"
+                sg = 1 if e[1] == "*" else -1
+                return (da[0] + sg * db[0], da[1] + sg * db[1])
+        if t in ("member", "mcall", "other"):
+            if "infinity" in A.show(e):
+                return "zero"
+        raise DErr("expression %s" % A.show(e)[:40])
+    found = 0
+    for x in A.walk(A.body(fn.node)):
+        if x.get("kind") != "IfStmt":
+            continue
+        conds = []
+
+        def flat(c):
+            if c[0] == "op" and c[1] in ("&&", "||"):
+                flat(c[2])
+                flat(c[3])
+            else:
+                conds.append(c)
+        flat(A.to_expr(A.kids(x)[0]))
+        for c in conds:
+            if not (c[0] == "op" and c[1] in ("<", "<=", ">", ">=", "==", "!=")):
+                continue
+            found += 1
+            f, l = A.loc(x)
+            try:
+                dl, dr = dim(c[2]), dim(c[3])
+            except DErr as ex:
+                rep.broke("I3: cannot type `%s`: %s" % (A.show(c)[:50], ex))
+                continue
+            norm = lambda d_: (0, 0) if d_ == "num" else d_
+            ok = dl == "zero" or dr == "zero" or norm(dl) == norm(dr)
+            inst = A.show(c).replace(" ", "")[:40]
+            rep.instance("I3", "integrate_absolute_polynomial", inst, ok=ok, sample={"file": fe.rel(f), "line": l, "left": str(dl), "right": str(dr)})
+            if not ok:
+                def show(d_):
+                    return "a pure number" if norm(d_) == (0, 0) else "V^%g T^%g" % norm(d_)
+                rep.violation(Finding("I3", "integrate_absolute_polynomial", inst,
+                                      "the case split `%s` compares %s with %s: an absolute threshold on a coefficient.  The integral is homogeneous in the value and time "
+                                      "units, the threshold is not: e.g. |5e-10 t^2 - 1| on [0, 1e5] is treated as having constant sign (result 66666.67 instead of 126295.15)"
+                                      % (A.show(c)[:50], show(dl), show(dr)), f, l))
+    if found == 0:
+        rep.broke("I3: no case-selecting comparison found")
 
 
 # ---- I2: binary_interval_search by exhaustive abstract execution of its AST over an iterator/index machine ----------
